@@ -118,6 +118,9 @@ func (m *vMon) ReassemblyComplete(g []*auparse.AuditMessage) {
 		return
 	}
 	vAssert(!in.delivered, "C01/delivered-twice")
+	if m.inClose {
+		vAssert(!in.delivered, "C19/close-delivered-an-event-twice")
+	}
 	same := len(g) == len(in.msgs)
 	if same {
 		for i := range g {
@@ -140,6 +143,10 @@ func (m *vMon) ReassemblyComplete(g []*auparse.AuditMessage) {
 	for _, o := range m.insts {
 		if !o.delivered && o != in {
 			vAssert(!(m.ord(o.seq) < m.ord(in.seq)), "C02/smaller-event-left-buffered")
+			if m.inClose {
+				// C19's own clause: Close delivers the buffered events in order
+				vAssert(!(m.ord(o.seq) < m.ord(in.seq)), "C19/close-delivered-out-of-order")
+			}
 		}
 	}
 	// C03 ghost accounting. "In order" is the property's own roll-over rule: s comes after L when
@@ -385,6 +392,7 @@ func VH_Reassembler() {
 	m.afterCall(vOpMaintain)
 	for _, in := range m.insts {
 		vAssert(in.delivered, "C01/not-delivered-by-close")
+		vAssert(in.delivered, "C19/buffered-event-not-delivered-by-close")
 	}
 	// pushes after Close are not ruled out by the API; whatever they leave behind, the
 	// later Maintain and Close deliver nothing
